@@ -52,15 +52,45 @@ struct Dump {
     /// element id -> (state, governance column bytes)
     elements: BTreeMap<String, (String, Vec<u8>)>,
     space: Json,
-    /// principal -> permission -> resource label -> permitted
-    decisions: BTreeMap<String, bool>,
 }
 
 async fn noop(_: &mut Collection) -> Result<(), DBError> {
     Ok(())
 }
 
-async fn dump(nexus: &CognitiveNexus, principals: &[String]) -> Dump {
+/// `principal|permission|resource` -> permitted, over every permission and
+/// every element that is not an erased stub (plus the Space).
+async fn decisions(nexus: &CognitiveNexus, principals: &[String]) -> BTreeMap<String, bool> {
+    let mut resources: Vec<(String, ResourceContext)> = vec![("Space".into(), ResourceContext::default())];
+    for kind in KINDS {
+        let c = nexus.store.elements(*kind);
+        for seq in c.ids() {
+            let row: Json = c.get_as(seq).await.expect("machinery: element row");
+            let id = ElementId::new(*kind, seq).to_string();
+            let state = row["state"].as_str().unwrap_or("");
+            if state == "pending" || state == "purged" {
+                continue;
+            }
+            let class = row["governance"]["classification"].as_str().unwrap_or("").to_string();
+            let schema_ref = ["schema_ref", "predicate_ref", "evidence_class", "activity_class"].iter().find_map(|k| row[*k].as_str()).unwrap_or("").to_string();
+            resources.push((id.clone(), ResourceContext { kind: kind.to_string(), schema_ref, classification: class, element_id: id }));
+        }
+    }
+    let mut out = BTreeMap::new();
+    for p in principals {
+        let auth = AuthContext::principal(p);
+        let session = nexus.session(auth.clone());
+        let Ok(authority) = session.effective_authority(DEFAULT_SPACE).await else { continue };
+        for perm in Permission::ALL {
+            for (label, res) in &resources {
+                out.insert(format!("{p}|{}|{label}", perm.as_str()), authority.authorize(*perm, res, &auth).is_permitted());
+            }
+        }
+    }
+    out
+}
+
+async fn dump(nexus: &CognitiveNexus) -> Dump {
     let mut gov = BTreeMap::new();
     for name in GOV {
         let c = nexus.store.db.open_collection(name.to_string(), noop).await.expect("machinery: open gov collection");
@@ -72,7 +102,6 @@ async fn dump(nexus: &CognitiveNexus, principals: &[String]) -> Dump {
         gov.insert(name.to_string(), rows);
     }
     let mut elements = BTreeMap::new();
-    let mut resources: Vec<(String, ResourceContext)> = vec![("Space".into(), ResourceContext::default())];
     for kind in KINDS {
         let c = nexus.store.elements(*kind);
         for seq in c.ids() {
@@ -82,17 +111,7 @@ async fn dump(nexus: &CognitiveNexus, principals: &[String]) -> Dump {
             if state == "pending" {
                 continue;
             }
-            let block = serde_json::to_vec(&row["governance"]).unwrap();
-            if state != "purged" {
-                let class = row["governance"]["classification"].as_str().unwrap_or("").to_string();
-                let schema_ref = ["schema_ref", "predicate_ref", "evidence_class", "activity_class"]
-                    .iter()
-                    .find_map(|k| row[*k].as_str())
-                    .unwrap_or("")
-                    .to_string();
-                resources.push((id.clone(), ResourceContext { kind: kind.to_string(), schema_ref, classification: class, element_id: id.clone() }));
-            }
-            elements.insert(id, (state, block));
+            elements.insert(id, (state, serde_json::to_vec(&row["governance"]).unwrap()));
         }
     }
     let s = nexus.store.get_space(DEFAULT_SPACE).await.expect("machinery: space");
@@ -101,19 +120,7 @@ async fn dump(nexus: &CognitiveNexus, principals: &[String]) -> Dump {
         "trust_policy_id": s.trust_policy_id, "default_classification": s.default_classification,
         "status": s.status, "audit_mode": s.audit_mode,
     });
-    let mut decisions = BTreeMap::new();
-    for p in principals {
-        let auth = AuthContext::principal(p);
-        let session = nexus.session(auth.clone());
-        let Ok(authority) = session.effective_authority(DEFAULT_SPACE).await else { continue };
-        for perm in Permission::ALL {
-            for (label, res) in &resources {
-                let ok = authority.authorize(*perm, res, &auth).is_permitted();
-                decisions.insert(format!("{p}|{}|{label}", perm.as_str()), ok);
-            }
-        }
-    }
-    Dump { gov, elements, space, decisions }
+    Dump { gov, elements, space }
 }
 
 /// What changed that must not have. Empty = held.
@@ -162,13 +169,6 @@ fn compare(pre: &Dump, post: &Dump, counters: &mut BTreeMap<&'static str, u64>) 
     }
     if pre.space != post.space {
         out.push(("space-authority".into(), format!("{} -> {}", pre.space, post.space)));
-    }
-    for (key, before) in &pre.decisions {
-        if let Some(after) = post.decisions.get(key) {
-            if after != before {
-                out.push(("decision".into(), format!("{key}: {before} -> {after}")));
-            }
-        }
     }
     out
 }
@@ -500,9 +500,9 @@ struct Outcome {
     unparsable_benign: Vec<String>,
 }
 
-async fn run_role(role: usize, only: Option<usize>) -> Outcome {
+async fn run_unit(role: usize, shard: usize, shards: usize, only: Option<usize>) -> Outcome {
     let role_name = ["owner", "writer", "reader"][role];
-    let s = scenario(role_name).await;
+    let s = scenario(&format!("{role_name}{shard}")).await;
     let session = match role {
         0 => s.nexus.system_session(),
         1 => s.nexus.session(AuthContext::principal(&s.p[0])),
@@ -521,9 +521,23 @@ async fn run_role(role: usize, only: Option<usize>) -> Outcome {
     };
     let cmds = battery(&s);
     let mut out = Outcome::default();
-    let watch = [s.p[0].clone(), s.p[1].clone(), s.p[2].clone()];
-    let mut pre = dump(&s.nexus, &watch).await;
+    let watch = [s.p[0].clone(), s.p[1].clone(), s.p[2].clone(), s.p[3].clone()];
+    let decisions_before = decisions(&s.nexus, &watch).await;
+    let mut pre = dump(&s.nexus).await;
+    let n_field = field_templates().len() * protected_names().len();
     for (index, c) in cmds.iter().enumerate() {
+        // the field-name section is spread over the shards; everything after it
+        // (look-alikes, reads, ordinary mutations) runs in shard 0, in order
+        let in_field_section = c.family.contains(".SET_") || c.family.contains(".UNSET_") || c.family.contains(".MATCH") || c.family.contains(".NESTED")
+            || c.family.contains(".BODY") || c.family.contains(".WHERE") || c.family.contains(".OTHER_KINDS");
+        let _ = n_field;
+        if in_field_section {
+            if index % shards != shard {
+                continue;
+            }
+        } else if shard != 0 {
+            continue;
+        }
         if only.is_some_and(|o| o != index) {
             // state-changing commands before the replayed one still have to run
             if c.family.contains('.') || c.family == "READ_PATH" || c.family == "CONTROL_PLANE_WORDS" {
@@ -545,7 +559,7 @@ async fn run_role(role: usize, only: Option<usize>) -> Outcome {
         } else {
             *out.refused.entry(code.clone()).or_default() += 1;
         }
-        let post = dump(&s.nexus, &watch).await;
+        let post = dump(&s.nexus).await;
         let changes = compare(&pre, &post, &mut out.counters);
         if out.samples.len() < 2 && (index % 97 == 5) {
             out.samples.push(json!({"role": role_name, "family": c.family, "command": c.text, "as_tree_with_field": c.inject, "outcome": if code.is_empty() { "accepted".to_string() } else { code.clone() }, "governance_state": "unchanged"}));
@@ -559,10 +573,25 @@ async fn run_role(role: usize, only: Option<usize>) -> Outcome {
             out.violations.push(Violation {
                 signature: format!("C19|authority-changed|{base_family}|{what}"),
                 summary: format!("as {role_name}, {} `{}`{} ({}): {detail}", c.family, c.text, c.inject.as_ref().map(|n| format!(" [tree with field {n:?}]")).unwrap_or_default(), if code.is_empty() { "accepted" } else { code.as_str() }),
-                replay: json!({"role": role, "index": index, "family": c.family, "command": c.text, "inject": c.inject, "what": what}),
+                replay: json!({"role": role, "shard": shard, "shards": shards, "index": index, "family": c.family, "command": c.text, "inject": c.inject, "what": what}),
             });
         }
         pre = post;
+    }
+    // end to end: nobody's decisions moved over the whole command sequence
+    let decisions_after = decisions(&s.nexus, &watch).await;
+    for (key, before) in &decisions_before {
+        out.counters.entry("decisions_compared_end_to_end").and_modify(|n| *n += 1).or_insert(1);
+        if let Some(after) = decisions_after.get(key) {
+            if after != before {
+                out.violations.push(Violation {
+                    signature: "C19|authority-changed|SEQUENCE|decision".to_string(),
+                    summary: format!("as {role_name}, after the command sequence of shard {shard}: decision {key} went {before} -> {after}"),
+                    replay: json!({"role": role, "shard": shard, "shards": shards, "index": null, "what": "decision", "key": key}),
+                });
+                break;
+            }
+        }
     }
     let _ = &s.built;
     out
@@ -570,16 +599,19 @@ async fn run_role(role: usize, only: Option<usize>) -> Outcome {
 
 fn main() {
     let mut run = Run::from_args("C19", "commands", "model_checking");
-    let mut only: Option<(usize, usize)> = None;
+    let mut shards = run.tier.pick(5, 5);
+    let mut only: Option<(usize, usize, Option<usize>)> = None;
     if let Some(file) = run.replay_file.clone() {
         let doc: Json = serde_json::from_slice(&std::fs::read(&file).expect("replay file")).expect("replay json");
-        only = Some((doc["replay"]["role"].as_u64().unwrap() as usize, doc["replay"]["index"].as_u64().unwrap() as usize));
+        let r = &doc["replay"];
+        shards = r["shards"].as_u64().unwrap_or(shards as u64) as usize;
+        only = Some((r["role"].as_u64().unwrap() as usize, r["shard"].as_u64().unwrap_or(0) as usize, r["index"].as_u64().map(|i| i as usize)));
     }
-    let roles: Vec<usize> = match only {
-        Some((r, _)) => vec![r],
-        None => vec![0, 1, 2],
+    let units: Vec<(usize, usize)> = match only {
+        Some((r, s, _)) => vec![(r, s)],
+        None => (0..3).flat_map(|r| (0..shards).map(move |s| (r, s))).collect(),
     };
-    let results = util::par_map(roles, 3, |role| util::block_on(run_role(role, only.filter(|(r, _)| *r == role).map(|(_, i)| i))));
+    let results = util::par_map(units, util::n_threads(), |(role, shard)| util::block_on(run_unit(role, shard, shards, only.and_then(|(_, _, i)| i))));
     let mut refused: BTreeMap<String, u64> = BTreeMap::new();
     let mut states = BTreeSet::new();
     for o in results {
@@ -611,7 +643,7 @@ fn main() {
     run.add("states", states.len() as u64);
     run.set("refusals_by_code", json!(refused));
     run.set("protected_field_spellings", json!(protected_names()));
-    run.rule("every field-name position of every KML clause family x every protected field spelling, as text and as a pre-parsed tree; ordinary mutations of all 16 clause families each also as PREVIEW KML / VALIDATE KML / dry run with a self-declared purpose; control-plane look-alike statements; KQL/META reads; x 3 roles (owner, broad writer, restricted reader), one scenario Nexus per role, commands in a fixed order; distinct = governance+element-block states a command was sent from");
+    run.rule("every field-name position of every KML clause family x every protected field spelling, as text and as a pre-parsed tree; ordinary mutations of all 16 clause families each also as PREVIEW KML / VALIDATE KML / dry run with a self-declared purpose; control-plane look-alike statements; KQL/META reads; x 3 roles (owner, broad writer, restricted reader); the field-name section is spread over 5 scenario Nexus instances per role, the rest runs in fixed order on the first; EffectiveAuthority::authorize over all permissions x all elements for 4 Principals is compared before/after each whole sequence; distinct = governance+element-block states a command was sent from");
     run.assume("commands reach the engine through anda_kip::execute_request (text or `ast` operation); the control plane holds every record kind except approvals (spending an approval is documented behaviour); a PURGE leaving the documented stub {purged, content_digest} in the erased element's block is not counted as a change");
     run.finish();
 }
